@@ -14,6 +14,7 @@ from pyvc.proxies import And, Or, Not, Implies, SBool, SInt, SStr, SDict, Len
 from pyvc import heap as H, core
 
 LEVEL = "other"
+STANDIN_ALWAYS_THOROUGH = True      # its large bound takes seconds: used at both tiers
 EXPLANATION = ("MIXED: key-set behaviour of HTTPHeaders (__delitem__, __contains__, __setitem__, __len__) proved by SMT from any state "
                "satisfying the representation invariant cache-keys subset-of list-keys, for arbitrary names; the multimap semantics of "
                "values (join, order, add/parse_line/obs-fold, copy independence, str/parse round trip) by exhaustive operation sequences "
